@@ -21,6 +21,7 @@ fixed('D3', ['C01', 'C11'], 'teleport leaves', 'transition teleport on a telepod
 fixed('D5', ['C13'], 'empty(random_exit', 'reset empty(random_exit=True, random_agent=False) could sample the exit at (1,1), under the agent', ['C13-D5-empty-random-exit-under-fixed-agent.json'])
 fixed('D8', ['C14'], 'rooms and memory_rooms reject', 'rooms/memory_rooms accepted layouts with adjacent wall splits (rooms without interior): isolated passage cells, agent and exit disconnected, unwinnable', ['C14-D8-rooms-degenerate-layout-disconnected.json'])
 fixed('D7', ['C02'], 'process-independent order', 'memory/memory_rooms did list(colors) on a set of Color enums: iteration order depends on PYTHONHASHSEED, so a seeded episode differed between interpreter processes', ['C02-D7-memory-colour-order-depends-on-hash-seed.json'])
+fixed('D9', ['C06'], 'stochastic_raytracing never reveals', 'stochastic_raytracing sampled visibility as random() <= probs: a draw of exactly 0.0 (a legal outcome of Generator.random) revealed cells that no ray reaches lit', ['C06-D9-stochastic-raytracing-zero-draw-reveals-dark-cells.json'])
 open_('D6', ['C14'], {'kind': 'unwinnable', 'fn': 'memory_rooms', 'cause': 'nonmatching_exit_on_every_path'},
       'memory_rooms can place a non-matching exit on every path between the agent and the matching exit (e.g. on the passage cell of a wall); every exit terminates the episode, so the rewarded goal is unreachable although the grid itself is connected (e.g. memory_rooms(Shape(4,7), (1,2), {RED,GREEN}, 1, 2) seed 1; about 1.5% of seeds for the shipped 7x7 four-room parameters)',
       ['C14-D6-memory_rooms-nonmatching-exit-on-cut-cell.json'])
